@@ -71,6 +71,7 @@ func LazyEvaluate(pos *Position, depth int, alpha, beta int, debug ...bool) int 
 
 	if materialSquaresScore > beta+fullEvalScoreMargin ||
 		materialSquaresScore < alpha-fullEvalScoreMargin {
+		verifLazyCut(pos, materialSquaresScore, alpha, beta)
 		return materialSquaresScore
 	}
 
